@@ -445,7 +445,7 @@ func runC05Workflows(seed int64, tier string) map[string]any {
 	r := rand.New(rand.NewSource(seed + 7))
 	n := 60
 	if tier == "thorough" {
-		n = 300
+		n = 240
 	}
 	hist := map[string]int{}
 	out := map[string]any{"workloads": n}
